@@ -127,6 +127,9 @@ fn pick<T: Clone>(v: Vec<T>, k: usize, seed: u64) -> Vec<T> {
     v
 }
 
+fn lay_of<F: Fx>(_v: &F) -> Lay { F::lay() }
+fn val_of<F: Fx>(v: &F) -> Num { v.val() }
+
 fn run_sqrt<S, D>(c: &mut Ctx)
 where
     S: Fx + PartialOrd<I9F23>,
@@ -357,6 +360,21 @@ fn main() {
     sd!(&mut c; run_sd_signed; I9F23 => I9F23, I9F55 => I9F55, I9F119 => I9F119, I16F48 => I16F48, I32F32 => I32F32, I41F23 => I41F23,
         I40F88 => I40F88, I64F64 => I64F64, I96F32 => I96F32, I105F23 => I105F23,
         I9F23 => I32F32, I9F23 => I64F64, I32F32 => I64F64, I16F48 => I40F88);
+    if c.on("consts") {
+        use sfv::sf::consts as k;
+        macro_rules! cst { ($($n:ident)*) => { $( {
+            let v = k::$n;
+            c.wr.raw(&format!("{{\"k\":\"const\",\"name\":\"{}\",\"L\":", stringify!($n)));
+            c.wr.lay(lay_of(&v));
+            c.wr.raw(",\"a\":");
+            c.wr.num(val_of(&v));
+            c.wr.raw("}");
+            c.wr.end();
+        } )* } }
+        cst!(TAU FRAC_TAU_2 FRAC_TAU_3 FRAC_TAU_4 FRAC_TAU_6 FRAC_TAU_8 FRAC_TAU_12 FRAC_1_TAU FRAC_2_TAU FRAC_4_TAU PI FRAC_PI_2
+             FRAC_PI_3 FRAC_PI_4 FRAC_PI_6 FRAC_PI_8 FRAC_1_PI FRAC_2_PI FRAC_2_SQRT_PI SQRT_2 FRAC_1_SQRT_2 E LOG2_10 LOG2_E
+             LOG10_2 LOG10_E LN_2 LN_10);
+    }
     if c.on("sin") || c.on("cos") || c.on("tan") {
         tt!(&mut c; I9F23 I9F55 I9F119 I16F48 I32F32 I41F23 I40F88 I64F64 I96F32 I105F23);
     }
